@@ -4297,6 +4297,17 @@ class Fparser2Reader():
                     expr = BinaryOperation.create(
                         add_op, lbound, Reference(symbol))
                     expr2 = BinaryOperation.create(sub_op, expr, one.copy())
+                step = child.step
+                if not (isinstance(step, Literal) and step.value == "1"):
+                    # The section has a stride:
+                    #    idx-expr = lower-bound + (loop-idx - 1) * stride
+                    offset = BinaryOperation.create(
+                        BinaryOperation.Operator.MUL,
+                        BinaryOperation.create(
+                            sub_op, Reference(symbol), one.copy()),
+                        step.copy())
+                    expr2 = BinaryOperation.create(
+                        add_op, lbound.copy(), offset)
                 array.children[idx] = expr2
                 range_idx += 1
 
